@@ -58,6 +58,7 @@ type tbAsk struct {
 	served       int
 	handlerOut   [][]byte
 	lenClass     string
+	slow         bool // the handler lingers, so that asks overlap
 }
 
 type tbWorld struct {
@@ -232,7 +233,42 @@ func RunTierB(prop string, st *simcore.Stream, tier, leg string, logOn bool, res
 		}
 		nextID++
 		id := nextID
-		switch st.Intn(8) {
+		switch st.Intn(9) {
+		case 8: // several asks from one node to one destination at the same time, with slow handlers
+			k := 2 + st.Intn(2)
+			var burst []*tbAsk
+			for i := 0; i < k; i++ {
+				nextID++
+				n := simcore.Pick(st, 16+st.Intn(200), mtu/2, mtu-1)
+				a := &tbAsk{id: nextID, from: from, to: to, req: tbFill(st, 'A', nextID, from, to, n), lenClass: "burst", slow: true}
+				a.respLen = simcore.Pick(st, 8+st.Intn(64), mtu/2, 8+st.Intn(300))
+				if a.respLen > mtu {
+					a.respLen = mtu
+				}
+				a.bufLen = a.respLen + st.Intn(8)
+				w.mu.Lock()
+				w.asks[string(a.req)] = a
+				w.mu.Unlock()
+				burst = append(burst, a)
+			}
+			do(10*time.Second, func(ctx context.Context) {
+				var bw sync.WaitGroup
+				for _, a := range burst {
+					a := a
+					bw.Add(1)
+					go func() {
+						defer bw.Done()
+						buf := bytes.Repeat([]byte{0xCC}, a.bufLen)
+						a.n, a.err = eps[from].Ask(ctx, buf, to, p2p.IOVec{append([]byte{}, a.req...)})
+						a.returned = true
+						if a.err == nil && a.n >= 0 && a.n <= len(buf) {
+							a.got = append([]byte{}, buf[:a.n]...)
+						}
+					}()
+				}
+				bw.Wait()
+			})
+			res.Fault("overlapping-asks")
 		case 0, 1, 2: // tell
 			n, class := lens()
 			t := &tbTell{id: id, from: from, to: to, payload: tbFill(st, 'T', id, from, to, n), lenClass: class, afterClose: to == closedNode}
@@ -478,7 +514,7 @@ func RunTierB(prop string, st *simcore.Stream, tier, leg string, logOn bool, res
 		"C01": {"payload-not-told": true, "delivered-to-wrong-node": true, "wrong-source-address": true, "sender-buffer-modified": true, "buffer-changed-in-callback": true},
 		"C04": {"wrong-source-identity": true, "wrong-key-for-source": true, "lookup-in-handler-failed": true, "wrong-key-for-address": true, "whitelisted-out-delivered": true, "delivered-to-wrong-identity": true},
 		"C09": {"refused-within-mtu": true, "accepted-above-mtu": true, "not-delivered-within-mtu": true, "delivered-not-intact": true},
-		"C11": {"ask-wrong-answer": true, "ask-success-without-handler": true, "ask-success-after-handler-failure": true, "ask-truncated-success": true, "ask-bad-length": true, "ask-request-not-asked": true, "ask-never-returned": true},
+		"C11": {"buffer-changed-in-callback": true, "ask-wrong-answer": true, "ask-success-without-handler": true, "ask-success-after-handler-failure": true, "ask-truncated-success": true, "ask-bad-length": true, "ask-request-not-asked": true, "ask-never-returned": true},
 		"C12": {"late-call-blocked": true, "success-after-close": true, "delivery-after-close": true},
 	}[prop]
 	var out []simcore.Violation
@@ -553,6 +589,17 @@ func (w *tbWorld) checkSource(ep Endpoint, at, from int, src, what string) {
 func (w *tbWorld) onAsk(ep Endpoint, resp []byte, m Msg) int {
 	at := ep.Node()
 	w.mu.Lock()
+	if a := w.asks[string(m.Payload)]; a != nil && a.slow {
+		// linger with the request in hand: it belongs to this handler until it returns
+		snap := append([]byte{}, m.Payload...)
+		w.mu.Unlock()
+		time.Sleep(3 * time.Millisecond)
+		w.mu.Lock()
+		if !bytes.Equal(snap, m.Payload) {
+			w.violate("buffer-changed-in-callback", "node %d: the request of ask %d changed while its handler was running", at, a.id)
+			m.Payload = snap
+		}
+	}
 	defer w.mu.Unlock()
 	res := w.res
 	res.Checks++
